@@ -59,6 +59,7 @@ def run_streams(cfg, prefix):
     """cfg: dict(scripts=[script,...], abandon=bool, late=bool)"""
     harness.install()
     s = Sched(prefix=prefix, horizon=6000)
+    s.time_preempt = True
     clock = DetClock()
     ev = []            # (t, kind, stream, value)
     st = {'errors': []}
@@ -68,9 +69,10 @@ def run_streams(cfg, prefix):
         """time_utils of one stream: records sleeps, lets the explorer abandon
         the waiting stream or wake it late"""
 
-        def __init__(self, i, coord):
+        def __init__(self, i, coord, probe=False):
             self.i = i
             self.coord = coord
+            self.probe = probe
 
         def time(self):
             return s.time()
@@ -96,12 +98,12 @@ def run_streams(cfg, prefix):
                 st['errors'].append(('C13:more-than-one-wait', f'stream {self.i} waited {st["sleeps"][self.i]} times for one read'))
             waiting[self.i] = (own, True)
             extra = 0.0
-            if cfg.get('abandon') and s.choose(2, 'abandon'):
+            if cfg.get('abandon') and not self.probe and s.choose(2, 'abandon'):
                 self.coord.exception = Boom(f'transfer of stream {self.i} failed')
                 st['failed'][self.i] = True
                 waiting[self.i] = (own, False)
                 ev.append((t, 'abandon', self.i, 0))
-            elif cfg.get('late') and s.choose(2, 'late'):
+            elif cfg.get('late') and not self.probe and s.choose(2, 'late'):
                 extra = 0.25
             s.sleep(d + extra)
             waiting.pop(self.i, None)
@@ -153,12 +155,24 @@ def run_streams(cfg, prefix):
                 if seen >= TH:
                     seen = 0
                 ev.append((s.time(), 'read', i, len(d)))
-                if st['sleeps'][i] == 0 and s.time() != t0:
-                    st['errors'].append(('C13:time-passed-without-sleep', f'stream {i}'))
         for i, sc in enumerate(cfg['scripts']):
             threads.append(s.spawn(lambda i=i, sc=sc: runner(i, sc), f'stream{i}'))
         for t in threads:
             s.point('join', t.name, enabled=lambda t=t: t.state == detsched.DONE)
+        # probe: long after everything finished, a lone small read must not be delayed
+        # ("throttling never ... permanently slows transfers")
+        if not any(st['raised']) or True:
+            s.sleep(10000.0)
+            pclock = StreamClock(n, Coord(), probe=True)
+            st['sleeps'].append(0)
+            st['pending_amt'].append(TH)
+            st['read_start'].append(s.step)
+            probe = bw.BandwidthLimitedStream(Zeros(), bucket, pclock.coord, time_utils=pclock, bytes_threshold=TH)
+            t0 = s.time()
+            probe.read(TH)
+            if s.time() != t0:
+                st['errors'].append(('C13:permanently-slowed',
+                                     f'after 10000 s of silence a lone read of {TH} bytes (limit {M} B/s) was delayed by {s.time() - t0:.3f}s'))
         try:
             st['total_wait'] = bucket._consumption_scheduler._total_wait
         except AttributeError:
@@ -200,7 +214,8 @@ def run_streams(cfg, prefix):
             errs.append(('C13:rate-exceeded',
                          f'{worst[2]} bytes returned in ({worst[0]:.3f},{worst[1]:.3f}] > {factor}*{M}*T + burst {B} = {worst[3]:.2f} (n={n})'))
     # (O4) demand below the limit is never delayed
-    if cfg.get('below_limit') and any(k == 'sleep' for (_, k, _, _) in ev):
+    # (only meaningful when no runnable stream was held back while time passed: that changes the arrival pattern)
+    if cfg.get('below_limit') and not s.user.get('time_preempted') and any(k == 'sleep' for (_, k, _, _) in ev):
         e = next(e for e in ev if e[1] == 'sleep')
         errs.append(('C13:delayed-below-limit', f'stream {e[2]} was put to sleep {e[3]:.3f}s at t={e[0]:.3f} although demand stays below the limit'))
     seen = set()
